@@ -240,7 +240,7 @@ func main() {
 	for _, h := range todo {
 		cfg := &interp.ExploreConfig{
 			MaxSteps:    int64(h.optInt(*tier, "maxsteps", 20_000_000)),
-			MaxDepth:    h.optInt(*tier, "maxdepth", 1500),
+			MaxDepth:    h.optInt(*tier, "maxdepth", 20000),
 			MaxPaths:    int64(h.optInt(*tier, "maxpaths", 0)),
 			Unwind:      h.optInt(*tier, "unwind", 64),
 			Workers:     *workers,
@@ -341,6 +341,7 @@ func main() {
 	// 3. native replay: counterexamples and one completed path per harness
 	rp := &replayer{repo: *repo, hdir: *hdir, dir: filepath.Join(*rpdir, *prop), prop: *prop}
 	confirmed, spurious, reachOK, reachBad := 0, 0, 0, 0
+	approxUnconfirmed := 0
 	var violLines []string
 	if !*noreplay {
 		os.RemoveAll(rp.dir)
@@ -383,6 +384,8 @@ func main() {
 				confirmed++
 				violLines = append(violLines, fmt.Sprintf("VIOLATION property=%s replay=%s", *prop, j.path))
 				fmt.Printf("  counterexample %s: harness=%s kind=%s tag=%q where=%s\n    model=%s\n    native: %s %s\n", filepath.Base(j.path), j.viol.Harness, j.viol.Kind, j.viol.Tag, j.viol.Where, modelString(j.viol), j.outcome, truncate(j.detail, 300))
+			} else if j.viol.Notes["approx"] != "" && j.viol.Kind == "assert" {
+				approxUnconfirmed++
 			} else {
 				spurious++
 				fmt.Printf("SPURIOUS: %s kind=%s tag=%q where=%s: native replay gave %s %s (engine/stub imprecision; harness inconclusive)\n", j.viol.Harness, j.viol.Kind, j.viol.Tag, j.viol.Where, j.outcome, truncate(j.detail, 200))
@@ -416,6 +419,9 @@ func main() {
 	}
 	for _, l := range violLines {
 		fmt.Println(l)
+	}
+	if approxUnconfirmed > 0 {
+		fmt.Printf("note: %d candidate counterexamples from over-approximated string comparisons did not reproduce natively (discarded)\n", approxUnconfirmed)
 	}
 	fmt.Printf("vcheck %s %s: %d harnesses, %d confirmed violations, %d spurious, %d/%d completed-path replays ok, %.1fs\n", *prop, *tier, len(reports), confirmed, spurious, reachOK, reachOK+reachBad, time.Since(t0).Seconds())
 	if len(violLines) > 0 {
